@@ -89,6 +89,10 @@ class Check(PropertyCheck):
                 c['mask'] = [[rng.random() < 0.3 for _ in range(nx)] for _ in range(ny)]
             if op == 'to_image':
                 c['out_dtype'] = rng.choice(['float', 'float', 'int'])
+            # history: the SAME RegionMask object has been applied before, to another image of the same shape and
+            # with another bad-pixel mask (nothing of that may survive in the object)
+            if rng.random() < 0.35:
+                c['warm'] = rng.randrange(1 << 30)
             # the box indices may be handed over as fixed-width numpy integers (when representable)
             if rng.random() < 0.3:
                 ok = [t for t in IDX_TYPES if all(np.iinfo(t).min <= v <= np.iinfo(t).max for v in box)]
@@ -140,6 +144,25 @@ class Check(PropertyCheck):
         before_data = data.copy()
         op = case['kind']
         out = {}
+        if 'warm' in case:
+            import random
+            rr = random.Random(case['warm'])
+            ny_, nx_ = case['shape']
+            for _ in range(rr.randint(1, 3)):
+                img2 = np.array([[rr.randint(-8, 8) / 4 for _ in range(nx_)] for _ in range(ny_)], dtype=float).reshape(ny_, nx_)
+                um2 = np.array([[rr.random() < 0.5 for _ in range(nx_)] for _ in range(ny_)], dtype=bool).reshape(ny_, nx_)
+                try:
+                    w_op = rr.choice(['get_values', 'get_values', 'multiply', 'cutout', 'to_image'])
+                    if w_op == 'get_values':
+                        m.get_values(img2, mask=um2 if rr.random() < 0.8 else None)
+                    elif w_op == 'multiply':
+                        m.multiply(img2, fill_value=rr.choice([0.0, 7.0, float('nan')]))
+                    elif w_op == 'cutout':
+                        m.cutout(img2, fill_value=rr.choice([0.0, 7.0]), copy=rr.random() < 0.5)
+                    else:
+                        m.to_image((ny_, nx_))
+                except Exception:
+                    pass
         try:
             if op == 'to_image':
                 r = m.to_image(tuple(case['shape']), dtype=float if case['out_dtype'] == 'float' else int)
